@@ -5,6 +5,23 @@ HERE = os.path.dirname(os.path.abspath(__file__))
 sys.path.insert(0, HERE)
 from manifest_data import CLAIMED, NOT_APPLICABLE_REASONS, FIX_COMMITS
 ALL = [f"C{i:02d}" for i in range(1, 21)]
+import re
+def notes_level_text(pid):
+    """ level text written by the builder of the property, section (a) of notes/notes_Cnn.md """
+    path = os.path.join(HERE, "..", "notes", f"notes_{pid}.md")
+    if not os.path.exists(path):
+        return None
+    text = open(path).read()
+    m = re.search(r"^#+[^\n]*level_text[^\n]*\n(.*?)(?=^#+ )", text, flags=re.S | re.M)
+    if not m:
+        return None
+    body = re.sub(r"\s+", " ", m.group(1)).strip().strip("`")
+    return body
+for pid in ALL:
+    if pid not in CLAIMED and os.path.exists(os.path.join(HERE, "..", "harness", pid.lower() + ".py")):
+        body = notes_level_text(pid)
+        if body:
+            CLAIMED[pid] = {"text": body, "note": "Details, theorem list and mutation results: notes/notes_%s.md." % pid}
 TRUST = ("Trusted: Coq 8.16.1 kernel (full .vo build; vm_compute only over finite generated tables and for the evaluator cross-check; "
          "no native_compute); every theorem is reported 'Closed under the global context' by Print Assumptions (no axioms) unless the "
          "evidence file names one; extraction (ExtrOcamlBasic directives only) + 15-line OCaml driver, cross-checked against vm_compute "
